@@ -267,9 +267,13 @@ def run_churn(i):
         env["OVNI_TRACEDIR"] = os.path.join(wd, "trace")
         env["OVNI_VERIF_DELAY"] = str(rng.randint(1, 10 ** 6))
         # build x overlap x OVNI_TMPDIR: every combination equally often
-        if (i // 4) % 2 == 1:
+        if (i // 8) % 2 == 1:
             env["OVNI_TMPDIR"] = os.path.join(wd, "tmp")
-        ovl = ["overlap"] if (i // 2) % 2 == 1 else []      # the lone thread is freed while the group initialises
+        # the lone thread is freed while the group initialises, or (pipeline) every
+        # group is freed while the next one initialises
+        ovl = [[], ["overlap"], ["pipeline"], ["pipeline"]][(i // 2) % 4]
+        if ovl == ["pipeline"]:
+            rounds = min(rounds, 150)
         r = core.run_retry([exe, str(rounds), str(k), str(nev)] + ovl, env=env, cwd=wd, timeout=300)
         if r.timeout:
             res["inconclusive"] = "churn driver timeout"; return res
@@ -286,8 +290,9 @@ def run_churn(i):
         res["streams"], v = rt.churn_check(env["OVNI_TRACEDIR"], nev)
         if v:
             res["viol"].append((v[0], v[1], {"rounds": rounds, "k": k, "n": nev}))
-        if res["streams"] != rounds * (k + 1) and not res["viol"]:
-            res["viol"].append(("churn:stream-count", "%d streams for %d threads" % (res["streams"], rounds * (k + 1)), {}))
+        nthreads = rounds * (k if ovl == ["pipeline"] else k + 1)
+        if res["streams"] != nthreads and not res["viol"]:
+            res["viol"].append(("churn:stream-count", "%d streams for %d threads" % (res["streams"], nthreads), {}))
         return res
     finally:
         shutil.rmtree(wd, ignore_errors=True)
